@@ -686,8 +686,10 @@ def suppress(x, tol=1e-8, clip=True):
     mask = abs(x) < tol
     if not clip:
         # preserve sum by spreading suppressed values to the non-zero elements
-        if mask.any() and x.dtype.kind in 'iub': x = x.astype(float) # (the spread is not an integer)
-        x[mask==False] = (x + sum(x[mask])/(len(mask)-sum(mask)))[mask==False]
+        spread = sum(x[mask])/(len(mask)-sum(mask))
+        if x.dtype.kind in 'iub' and not mask.all() and spread % 1:
+            x = x.astype(float) # (the spread is not an integer)
+        x[mask==False] = (x + spread)[mask==False]
     x[mask] = 0.0
     return x.tolist()
 
